@@ -69,6 +69,12 @@ def lem_ratio_sym():
     return [v1 > 0, v2 > 0, M >= 0], spec.ratio(v1, v2, M) == spec.ratio(v2, v1, M)
 
 
+def lem_ratio_scale():
+    """C08: the ISI ratio is invariant under a common positive scaling of both intervals and MRTS"""
+    v1, v2, M, lam = reals('v1 v2 M lam')
+    return [v1 > 0, v2 > 0, M >= 0, lam > 0], spec.ratio(lam * v1, lam * v2, lam * M) == spec.ratio(v1, v2, M)
+
+
 def lem_ratio_identity():
     v1, M = reals('v1 M')
     return [v1 > 0, M >= 0], spec.ratio(v1, v1, M) == 0
@@ -247,7 +253,7 @@ register(LemmaGroup('lemmas.cover', [('covers_imply_no_spike_inside', lem_cover)
 register(LemmaGroup('lemmas.range', [('ratio_in_0_1', lem_ratio_range), ('D_nonneg', lem_D_nonneg(False)), ('D_RI_nonneg', lem_D_nonneg(True)),
                                      ('D_zero_at_shared_spike', lem_D_zero(False)), ('D_RI_zero_at_shared_spike', lem_D_zero(True)),
                                      ('ratio_identity', lem_ratio_identity)]))
-register(LemmaGroup('lemmas.symmetry', [('ratio_symmetric', lem_ratio_sym), ('D_symmetric', lem_D_sym(False)), ('D_RI_symmetric', lem_D_sym(True)),
+register(LemmaGroup('lemmas.symmetry', [('ratio_symmetric', lem_ratio_sym), ('ratio_scale_invariant', lem_ratio_scale), ('D_symmetric', lem_D_sym(False)), ('D_RI_symmetric', lem_D_sym(True)),
                                         ('window_symmetric', lem_coinc_sym)]))
 register(LemmaGroup('lemmas.window', [('interpolate_py_pyx_spec_equal', lem_interp_form), ('interp_le_b', lem_interp_le_b),
                                       ('interp_monotone', lem_interp_mono), ('interp_small_t', lem_interp_zero),
